@@ -15,7 +15,7 @@ import re
 from lib import vk
 
 PKG = "cmd/zoekt-sourcegraph-indexserver"
-FILES = ["c31_indexmutex_test.go"]
+FILES = ["c31_indexmutex_test.go", "c31_callers_test.go"]
 
 
 def consts(n, names, depth, mdepth, modes, emit, viewret="FALSE"):
@@ -33,6 +33,8 @@ def reject_sig(r, ev):
             # kind of the offending goroutine's operation: the command itself or unknown
             kind = ev["k"] if who == ev["p"] else "other"
         return "C31:step:%s%s" % (why, ":" + kind if kind else "")
+    if ev["ev"] == "caller":
+        return "C31:caller:%s:%s" % (why, ev["op"])
     return "C31:stress:%s:%s" % (why, ev.get("k", ""))
 
 
@@ -66,7 +68,9 @@ def run(ctx):
     # observed state (no prediction), more goroutines/names than the exhaustive machine, same validation
     rnd = ctx.path("trace_random.ndjson")
     for name, run_, env, race in (("replay", "^TestVerif_C31_(Replay|Random)$", {"VERIF_IN": inp, "VERIF_OUT2": rnd}, False),
-                                  ("stress", "^TestVerif_C31_Stress$", {}, True)):
+                                  ("stress", "^TestVerif_C31_Stress$", {}, True),
+                                  # a caller: Server.merge started while an index job holds its repository lock
+                                  ("callers", "^TestVerif_C31_Callers$", {}, False)):
         rc, out, trace = ctx.driver(PKG, run_, FILES, env=env, out="trace_%s.ndjson" % name, timeout=1500, race=race)
         if rc != 0:
             m = re.search(r"fatal error: (sync: [^\n]*)", out)
